@@ -660,6 +660,14 @@ CORPUS = [
     dict(kind="dp", fn="dpois", fam="pois", x=790, params=dict(mu=800.0), flags=dict(log=True)),
     dict(kind="dp", fn="dbinom", fam="binom", x=1010, params=dict(size=2000, prob=0.5), flags=dict(log=False)),
     dict(kind="dp", fn="dgamma", fam="gamma", x=148.0, params=dict(shape=300.0, rate=2.0), flags=dict(log=True)),
+    # arguments so small that 1 - exp(-x) loses every digit unless it is computed as -expm1(-x); both tail flags together
+    dict(kind="dp", fn="pexp", fam="exp", x=1e-12, params=dict(rate=2.5), flags=dict(log=False)),
+    dict(kind="dp", fn="pexp", fam="exp", x=3e-18, params=dict(rate=0.5), flags=dict(log=True)),
+    dict(kind="dp", fn="pgamma", fam="gamma", x=1e-9, params=dict(shape=1.0, rate=2.0), flags=dict(log=False)),
+    dict(kind="roundtrip", fam="exp", x=1e-17, params=dict(rate=2.5)),
+    dict(kind="dp", fn="pnbinom", fam="nbinom", x=3, params=dict(size=2.5, prob=0.4), flags=dict(log=True, lower_tail=False)),
+    dict(kind="q", fn="qnbinom", fam="nbinom", k=3, params=dict(size=2.5, prob=0.4), flags=dict(lower_tail=False, log=True)),
+    dict(kind="q", fn="qnbinom", fam="nbinom", k=2, params=dict(size=4.0, mu=3.0), flags=dict(lower_tail=False)),
     # arguments by position (the log flag last), end points of the support
     dict(kind="dp", fn="dchisq", fam="chisq", x=3.0, params=dict(df=4.0), flags=dict(log=True), positional=True),
     dict(kind="dp", fn="pchisq", fam="chisq", x=3.0, params=dict(df=4.0), flags=dict(log=True), positional=True),
@@ -741,6 +749,7 @@ def gen_inputs(rng, ndp, nq, nseed, ndist):
                     out.append(dict(base, flags=dict(lower_tail=False)))
                     if fam == "nbinom":
                         out.append(dict(base, flags=dict(log=True)))
+                        out.append(dict(base, flags=dict(log=True, lower_tail=False)))
     for _ in range(max(2, ndp // 4)):                 # far tails, log form (the plain value underflows there)
         P = gen_params("norm", rng)
         z = float(rng.uniform(39.0, 60.0))
